@@ -43,6 +43,11 @@ CHECKS = {
             'reference type predicate, and a reference must-accept/must-reject/unspecified classifier',
             'Held on the executions produced: every decode returned a valid value or ValidationError and agreed '
             'with the classifier on all must-accept and must-reject documents.', '4 C06'),
+    'C08': ('runtime monitoring: assignments / union constructions / primitive decodes on the real generated classes, '
+            'exhaustive over primitive parameter shapes x embeddings x boundary values, judged by a reference '
+            'type predicate derived from the model',
+            'Held on the executions produced: accepted exactly the values inside the declared type, refusal '
+            'always ValidationError, accepted values read back equal up to documented normalisations.', '4 C08'),
 }
 
 PENDING = {}
